@@ -9,18 +9,22 @@ use crate::sched::Policy;
 pub enum Op {
   /// evaluate a query; if `stop` and the query is refused the thread abandons its script
   Q { q: Query, stop: bool },
-  /// slot := LunarDay::new(y,m,d) / LunarHour::new(y,m,d,h,mi,s)
-  HNew { slot: usize, hour: bool, args: Vec<i64> },
+  /// evaluate the same query `times` times in a row (hot key); only the last answer is recorded
+  QRep { q: Query, times: u64 },
+  /// slot := a value of kind `kind` (index into handles::HKINDS) built from `args`
+  HNew { slot: usize, kind: usize, args: Vec<i64> },
   /// slot := slot.next(n)
   HNext { slot: usize, n: i64 },
   /// to := from.clone()
   HClone { from: usize, to: usize },
   /// call getter g on the value in slot
   HGet { slot: usize, g: i64 },
-  /// to := (LunarHour in from).get_lunar_day()
-  HDay { from: usize, to: usize },
-  /// to := (LunarDay in from).get_hours()[k]
+  /// to := a value contained in / computed from the one in `from` (handles::Handle::derive)
+  HDay { from: usize, to: usize, variant: usize },
+  /// to := (day in from).get_hours()[k]
   HHour { from: usize, to: usize, k: usize },
+  /// compare the values in two slots (is_before / is_after / ==)
+  HCmp { a: usize, b: usize },
 }
 
 pub const SLOTS: usize = 4;
@@ -41,8 +45,9 @@ impl Op {
   pub fn to_text(&self) -> String {
     match self {
       Op::Q { q, stop } => format!("{} {}", if *stop { "q!" } else { "q" }, q.key()),
-      Op::HNew { slot, hour, args } => {
-        let mut s = format!("hnew {} {}", slot, if *hour { "LH" } else { "LD" });
+      Op::QRep { q, times } => format!("q*{} {}", times, q.key()),
+      Op::HNew { slot, kind, args } => {
+        let mut s = format!("hnew {} {}", slot, crate::handles::HKINDS[*kind]);
         for a in args {
           s.push_str(&format!(" {}", a));
         }
@@ -51,8 +56,9 @@ impl Op {
       Op::HNext { slot, n } => format!("hnext {} {}", slot, n),
       Op::HClone { from, to } => format!("hclone {} {}", from, to),
       Op::HGet { slot, g } => format!("hget {} {}", slot, g),
-      Op::HDay { from, to } => format!("hday {} {}", from, to),
+      Op::HDay { from, to, variant } => format!("{} {} {}", if *variant == 0 { "hday" } else { "hday2" }, from, to),
       Op::HHour { from, to, k } => format!("hhour {} {} {}", from, to, k),
+      Op::HCmp { a, b } => format!("hcmp {} {}", a, b),
     }
   }
 
@@ -60,25 +66,27 @@ impl Op {
     let num = |s: &str| -> Result<i64, String> { s.parse::<i64>().map_err(|e| format!("bad number {}: {}", s, e)) };
     match tokens.first().copied() {
       Some("q") | Some("q!") => Ok(Op::Q { q: Query::parse(&tokens[1..])?, stop: tokens[0] == "q!" }),
+      Some(t) if t.starts_with("q*") => Ok(Op::QRep { q: Query::parse(&tokens[1..])?, times: t[2..].parse::<u64>().map_err(|_| "bad repeat count".to_string())?.max(1) }),
       Some("hnew") => {
         if tokens.len() < 3 {
           return Err("hnew: too short".to_string());
         }
         let slot = num(tokens[1])? as usize;
-        let hour = tokens[2] == "LH";
+        let kind = crate::handles::HKINDS.iter().position(|k| *k == tokens[2]).ok_or(format!("hnew: unknown kind {}", tokens[2]))?;
         let mut args = Vec::new();
         for t in &tokens[3..] {
           args.push(num(t)?);
         }
-        if args.len() != if hour { 6 } else { 3 } || slot >= SLOTS {
+        if args.len() != crate::handles::HARITY[kind] || slot >= SLOTS {
           return Err("hnew: wrong arguments".to_string());
         }
-        Ok(Op::HNew { slot, hour, args })
+        Ok(Op::HNew { slot, kind, args })
       }
       Some("hnext") if tokens.len() == 3 => Ok(Op::HNext { slot: (num(tokens[1])? as usize).min(SLOTS - 1), n: num(tokens[2])? }),
       Some("hclone") if tokens.len() == 3 => Ok(Op::HClone { from: (num(tokens[1])? as usize).min(SLOTS - 1), to: (num(tokens[2])? as usize).min(SLOTS - 1) }),
-      Some("hday") if tokens.len() == 3 => Ok(Op::HDay { from: (num(tokens[1])? as usize).min(SLOTS - 1), to: (num(tokens[2])? as usize).min(SLOTS - 1) }),
+      Some("hday") | Some("hday2") if tokens.len() == 3 => Ok(Op::HDay { from: (num(tokens[1])? as usize).min(SLOTS - 1), to: (num(tokens[2])? as usize).min(SLOTS - 1), variant: if tokens[0] == "hday" { 0 } else { 1 } }),
       Some("hhour") if tokens.len() == 4 => Ok(Op::HHour { from: (num(tokens[1])? as usize).min(SLOTS - 1), to: (num(tokens[2])? as usize).min(SLOTS - 1), k: (num(tokens[3])? as usize).min(12) }),
+      Some("hcmp") if tokens.len() == 3 => Ok(Op::HCmp { a: (num(tokens[1])? as usize).min(SLOTS - 1), b: (num(tokens[2])? as usize).min(SLOTS - 1) }),
       Some("hget") if tokens.len() == 3 => Ok(Op::HGet { slot: (num(tokens[1])? as usize).min(SLOTS - 1), g: num(tokens[2])? }),
       _ => Err(format!("unknown op: {:?}", tokens)),
     }
